@@ -1172,6 +1172,29 @@ def gen_devices(rng, tier, with_cmds, with_states):
                     ops.append("oa")
                     ops.append("ra")
                 L.append("dv %s free:%d -- %s" % (setup, nfree, " ".join(ops)))
+    # extreme and sentinel-like timestamps (i64::MIN / MAX, 0, -1) on one terminal only, on each terminal, and tied on all: a
+    # "newest wins" written with a sentinel instead of an Option goes wrong exactly there
+    EXT = [I64_MIN, I64_MIN + 1, -1, 0, 1, I64_MAX - 1, I64_MAX]
+    for setup, nt in [("inv", 2), ("gear:" + rand_ratio(rng), 2), ("gear:" + f2h(-3.0), 2), ("axle:2", 2), ("axle:3", 3)] + \
+                     ([("diff:" + m, 3) for m in ("S1", "S2", "SU", "EQ")] if with_states else []):
+        for tx in EXT:
+            for i in range(nt):
+                ops = []
+                if with_cmds:
+                    ops.append("sc:%d:%s" % (i, datum_cmd(rng, tx)))
+                if with_states:
+                    ops.append("ss:%d:%s" % (i, datum_state(rng, tx)))
+                L.append("dv %s free:%d -- %s u:0 oa ra" % (setup, nt, " ".join(ops)))
+            ops = []
+            for i in range(nt):
+                if with_cmds:
+                    ops.append("sc:%d:%s" % (i, datum_cmd(rng, tx)))
+                if with_states:
+                    ops.append("ss:%d:%s" % (i, datum_state(rng, tx)))
+            L.append("dv %s free:%d -- %s u:0 oa ra" % (setup, nt, " ".join(ops)))
+            for ty in EXT:
+                if ty != tx and with_cmds:
+                    L.append("dv %s free:%d -- sc:0:%s sc:%d:%s u:0 oa ra" % (setup, nt, datum_cmd(rng, tx), nt - 1, datum_cmd(rng, ty)))
     # constructor corner cases
     L.append("dv geart:41200000 --")
     for (m, s) in GRID:
@@ -1370,28 +1393,50 @@ def gen_C20(rng, tier):
 # =========================================================================== C15
 def gen_C15(rng, tier):
     L = []
+    def two_getters(evs, extra, obs):
+        # both scripted getters hold DIFFERENT present values, one is followed and then the OTHER one is followed
+        # WITHOUT stop_following in between, then an update: the most recently followed getter must be the one forwarded
+        a = mkf(rng)
+        b = mkf(rng)
+        while b == a: b = mkf(rng)
+        first, second = rng.choice([("fol", "fol2"), ("fol2", "fol")])
+        mid = ["gs:" + out_some(rng.randint(-9, 9), a), "gs2:" + out_some(rng.randint(-9, 9), b)]
+        rng.shuffle(mid)
+        if rng.random() < 0.3: mid.append("upd")
+        if rng.random() < 0.2: mid.append(rng.choice(extra))
+        k = rng.randint(0, len(mid))
+        evs.extend(mid[:k] + [first] + mid[k:] + [second, "upd"] + rng.choice(obs))
+        evs.extend(rng.choice([[], [], [first, "upd"] + rng.choice(obs), ["unfol", second, "upd"] + rng.choice(obs)]))
     for _ in range(n_of(tier, 600, 5000)):
         evs = []
+        if rng.random() < 0.5: two_getters(evs, ["lr", "acc:ok", "set:" + mkf(rng)], [[], ["lr"]])
         for _ in range(rng.randint(2, 40)):
             r = rng.random()
-            if r < 0.25: evs.append("set:" + mkf(rng))
-            elif r < 0.35: evs.append("acc:" + rng.choice(["ok", "ok", "E7", "E8"]))
-            elif r < 0.50: evs.append("lr")
-            elif r < 0.58: evs.append("fol")
-            elif r < 0.63: evs.append("unfol")
-            elif r < 0.78: evs.append("gs:" + rng.choice([out_some(rng.randint(-9, 9), mkf(rng)), out_some(1, mkf(rng)), "N", "E1", "E2"]))
+            if r < 0.21: evs.append("set:" + mkf(rng))
+            elif r < 0.30: evs.append("acc:" + rng.choice(["ok", "ok", "E7", "E8"]))
+            elif r < 0.41: evs.append("lr")
+            elif r < 0.48: evs.append("fol")
+            elif r < 0.55: evs.append("fol2")
+            elif r < 0.59: evs.append("unfol")
+            elif r < 0.70: evs.append("gs:" + rng.choice([out_some(rng.randint(-9, 9), mkf(rng)), out_some(1, mkf(rng)), "N", "E1", "E2"]))
+            elif r < 0.80: evs.append("gs2:" + rng.choice([out_some(rng.randint(-9, 9), mkf(rng)), out_some(1, mkf(rng)), "N", "E4", "E2"]))
+            elif r < 0.83: two_getters(evs, ["lr", "acc:ok", "set:" + mkf(rng)], [[], ["lr"]])
             else: evs.append("upd")
         L.append("se rec " + " ".join(evs))
         evs = []
+        if rng.random() < 0.5: two_getters(evs, ["lr", "get", "set:" + mkf(rng)], [["get"], ["lr"]])
         for _ in range(rng.randint(2, 40)):
             r = rng.random()
-            if r < 0.2: evs.append("clk:" + rng.choice(["T:%d" % rng.randint(-10 ** 12, 10 ** 12), "T:%d" % rng.randint(-9, 9), "E3"]))
-            elif r < 0.45: evs.append("get")
-            elif r < 0.55: evs.append("set:" + mkf(rng))
-            elif r < 0.65: evs.append("lr")
-            elif r < 0.72: evs.append("fol")
-            elif r < 0.76: evs.append("unfol")
-            elif r < 0.88: evs.append("gs:" + rng.choice([out_some(rng.randint(-9, 9), mkf(rng)), "N", "E1"]))
+            if r < 0.18: evs.append("clk:" + rng.choice(["T:%d" % rng.randint(-10 ** 12, 10 ** 12), "T:%d" % rng.randint(-9, 9), "E3"]))
+            elif r < 0.40: evs.append("get")
+            elif r < 0.49: evs.append("set:" + mkf(rng))
+            elif r < 0.57: evs.append("lr")
+            elif r < 0.63: evs.append("fol")
+            elif r < 0.69: evs.append("fol2")
+            elif r < 0.72: evs.append("unfol")
+            elif r < 0.81: evs.append("gs:" + rng.choice([out_some(rng.randint(-9, 9), mkf(rng)), "N", "E1"]))
+            elif r < 0.89: evs.append("gs2:" + rng.choice([out_some(rng.randint(-9, 9), mkf(rng)), "N", "E4"]))
+            elif r < 0.91: two_getters(evs, ["lr", "get", "set:" + mkf(rng)], [["get"], ["lr"]])
             else: evs.append("upd")
         L.append("se cg %s %s %s" % (mkf(rng), rng.choice(["T:%d" % rng.randint(-99, 99), "E3"]), " ".join(evs)))
         lo = rng.choice([0, 0, -100, 50, rng.randint(-10 ** 6, 10 ** 6)])
@@ -1529,6 +1574,9 @@ def line_mask_C19(c):
     return {"cat", "time", "unit", "float"}
 
 
+CONFIG_CHECKED = {}   # configuration name -> dimension checking compiled in (filled by check.py)
+
+
 def config_tol_C19(cname, c):
     """the property exempts 'the last ulps of the power function used by the EWMA and exponent streams when libm or micromath
     replaces std': powf-dependent lines are compared with a bound instead of bit-for-bit in those configurations (libm: a few ulps;
@@ -1563,7 +1611,8 @@ def cross_C19(lines, outs, models=None):
     import re as _re
     bad = []
     names = list(outs.keys())
-    chk_cfgs = [n for n in names if ("chk" in _re.split("[_,]", n) or n == "default")]
+    # which configurations have dimension checking compiled in: told by check.py (the `chk` / `nochk` argument the model is run with)
+    chk_cfgs = [n for n in names if CONFIG_CHECKED.get(n, ("chk" in _re.split("[_,:]", n) or n == "default"))]
     # unit-introspection API: documented to answer differently with checking off (`eq_assume_true` is constantly true,
     # `assert_eq_assume_not_ok` always panics): not numeric results of a program
     INTROSPECT = ("q uanok", "q ueqt", "q ueqf", "q uceq", "q ucaeq", "q uaok")
@@ -1586,6 +1635,11 @@ def cross_C19(lines, outs, models=None):
         ref = row[ref_name]
         ill = "PANIC:dim" in ref or " err" in (" " + ref) or ref.startswith("err")
         if ill:
+            # every configuration that has checking compiled in must refuse the same ill-dimensioned program
+            for n in chk_cfgs:
+                if n != ref_name and compare_lines(strip_units(row[n]), strip_units(ref), {"cat", "time", "float"}, None, True)[0] == "hard":
+                    bad.append((c, "checked configuration %s accepts / answers differently from checked configuration %s: %s vs %s"
+                                % (n, ref_name, row[n][:80], ref[:80])))
             if models:
                 for n in names:
                     if n in chk_cfgs or k >= len(models.get(n, [])):
